@@ -97,8 +97,12 @@ def soup_normalise(t):
     if k == 'loginRej':
         return [k, int(t[1])]
     if k in ('seqData', 'unseqData'):
+        if isinstance(t[1], list) and t[1][0] == 'fill':          # `(seqData (fill <byte> <n>))`: compact form for corpus files
+            return [k, bytes([int(t[1][1])]) * int(t[1][2])]
         return [k, bytes.fromhex(t[1][1:])]
     if k == 'debug':
+        if t[1] and t[1][0] == 'fill':
+            return [k, [int(t[1][1])] * int(t[1][2])]
         return [k, ints(t[1])]
     raise ValueError(k)
 
@@ -361,7 +365,17 @@ def probe_cls(reader_cls):
         return _PROBES[reader_cls]
 
     class Probe(reader_cls):
+        c03_log = None
+        c03_via_session = False
+
+        def on_data(self, data):
+            if self.c03_via_session and self.c03_log is not None:
+                self.c03_log.append(('d', bytes(data)))
+            return super().on_data(data)
+
         def deserialize(self):
+            if self.c03_log is None:
+                return super().deserialize()
             self.c03_log.append(('t',))
             if len(self.c03_log) > MAX_DESERIALIZE_CALLS:
                 raise ReaderHang(f'the reader called deserialize() more than {MAX_DESERIALIZE_CALLS} times in one case (busy loop)')
@@ -430,6 +444,74 @@ async def _drive(side, script, stubs, tail_polls):
     return log, fin
 
 
+async def _drive_session(side, script, stubs, tail_polls):
+    """the same script, but the bytes travel peer -> transport (with flow control: `FakeTransport.feed`) -> session -> the session's
+    own reader; same event log and final observations as `_drive`.  The session is a client session before login (no heartbeat
+    monitors, nobody consumes the queue): what is observed is the reader the session built."""
+    from vloop import FakeTransport
+    log = []
+    if side.name == 'soup':
+        from nasdaq_protocols import soup as s_
+        sess = s_.SoupClientSession()
+    else:
+        fix_dict()
+        from nasdaq_protocols.fix import session as fs
+        sess = fs.Fix44Session()
+    sess.reader_factory = probe_cls(sess.reader_factory)
+    tr = FakeTransport()
+    tr.protocol = sess
+    sess.connection_made(tr)
+    reader = sess._reader
+    reader.c03_log = log
+    reader.c03_via_session = True
+    om, oc, depth = reader.on_msg_coro, reader.on_close_coro, [0]
+
+    async def om2(m):
+        log.append(('m', m))
+        await om(m)
+
+    async def oc2():
+        if depth[0] == 0 and asyncio.current_task() is getattr(reader, '_task', None):
+            log.append(('c',))
+        depth[0] += 1
+        try:
+            await oc()
+        finally:
+            depth[0] -= 1
+    reader.on_msg_coro, reader.on_close_coro = om2, oc2
+    await asyncio.sleep(0)
+    await asyncio.sleep(0)
+    for ev in script:
+        if ev[0] == 'd':
+            tr.feed(bytes.fromhex(ev[1]))
+        elif ev[0] == 'a':
+            await asyncio.sleep(ev[1] * UNIT)
+            for _ in range(3):
+                await asyncio.sleep(0)
+        elif ev[0] == 'y':
+            for _ in range(ev[1]):
+                await asyncio.sleep(0)
+    for _ in range(tail_polls):
+        await asyncio.sleep(2 * UNIT)
+        for _ in range(3):
+            await asyncio.sleep(0)
+    fin = {'stopped': bool(reader.is_stopped()), 'via': 'session', 'paused': not tr.is_reading() and not tr.closes,
+           'pending_inbound': tr.pending_inbound(), 'session_closed': bool(sess.is_closed())}
+    task = getattr(reader, '_task', None)
+    if isinstance(task, asyncio.Task):
+        fin['crashed'] = err_name(task.exception()) if (task.done() and not task.cancelled() and task.exception() is not None) else '-'
+        fin['task_done'] = task.done()
+    buf = getattr(reader, '_buffer', None)
+    if isinstance(buf, (bytes, bytearray)):
+        fin['buf'] = bytes(buf)
+    reader.c03_log = None
+    try:
+        await asyncio.wait_for(sess.close(), 1.0)
+    except Exception as e:  # noqa
+        fin['close_raised'] = err_name(e)
+    return log, fin
+
+
 CASE_TIMEOUT = 10.0      # wall seconds for one case (a normal case takes about a millisecond)
 
 
@@ -456,7 +538,7 @@ class Runner:
         self.n = 0
         self.hangs = 0
 
-    def drive(self, side, script, stubs, tail_polls):
+    def drive(self, side, script, stubs, tail_polls, via=None):
         self.n += 1
         if self.n % 4000 == 0:                      # fresh loop now and then (bookkeeping lists of the loop grow)
             self.close()
@@ -466,7 +548,7 @@ class Runner:
         signal.signal(signal.SIGALRM, _on_alarm)
         signal.setitimer(signal.ITIMER_REAL, CASE_TIMEOUT)
         try:
-            return self.loop.run(_drive(side, script, stubs, tail_polls))
+            return self.loop.run((_drive_session if via == 'session' else _drive)(side, script, stubs, tail_polls))
         except ReaderHang as e:
             self.hangs += 1
             try:
@@ -540,7 +622,7 @@ def evaluate(ctx, runner, case, model_line_sink=None):
             expected.append(side.expect(m, f))
     tail = (len(whole) + 3) * (1 + stub_slack(stubs))
     try:
-        log, fin = runner.drive(side, script, stubs, tail)
+        log, fin = runner.drive(side, script, stubs, tail, case.get('via'))
     except Exception as e:  # noqa: an exception escaping the library into the harness is an observation
         res['fail'].append(f'driving the reader raised {err_name(e)}: {e!r:.120}')
         return res
@@ -572,6 +654,12 @@ def evaluate(ctx, runner, case, model_line_sink=None):
         res['fail'].append(f'{side.name}: is_stopped()={fin["stopped"]} but logout delivered: {has_logout}')
     if fin.get('crashed', '-') != '-':
         res['fail'].append(f'{side.name}: reader task died with {fin["crashed"]} on a well-formed stream')
+    if fin.get('paused') and fin.get('pending_inbound'):
+        res['fail'].append(f'{side.name}: the session paused reading on its transport and never resumed: {fin["pending_inbound"]} received bytes never reached the reader')
+    if fin.get('close_raised'):
+        res['fail'].append(f'{side.name}: close() of the session raised {fin["close_raised"]}')
+    if case.get('via') == 'session':
+        res['fail'] = [f + '  [stream delivered through a session and its transport]' for f in res['fail']]
     return res
 
 
@@ -738,8 +826,11 @@ def hl_to_case(hl):
     script = build_script(frames, cuts, polls[:len(cuts) + 1])
     if upto is not None:
         script = truncate_script(script, upto)
-    return {'kind': 'stream', 'proto': hl['proto'], 'msgs': hl['msgs'], 'frames': [f.hex() for f in frames],
+    case = {'kind': 'stream', 'proto': hl['proto'], 'msgs': hl['msgs'], 'frames': [f.hex() for f in frames],
             'script': script, 'stubs': hl.get('stubs', {}), 'cuts': cuts}
+    if hl.get('via'):
+        case['via'] = hl['via']
+    return case
 
 
 def truncate_script(script, upto):
@@ -864,7 +955,9 @@ def gen_cases(ctx, side, quick):
             hl['stubs'] = {'close': ['turns', 2]}
         if rng.random() < 0.15:
             hl['upto'] = rng.randrange(1, L)         # only a prefix of the stream arrives
-        yield 'long:' + mode + (':prefix' if 'upto' in hl else '') + (':slow-callbacks' if 'stubs' in hl else ''), hl
+        if 'stubs' not in hl and rng.random() < 0.25:
+            hl['via'] = 'session'
+        yield 'long:' + mode + (':prefix' if 'upto' in hl else '') + (':slow-callbacks' if 'stubs' in hl else '') + (':via-session' if hl.get('via') else ''), hl
     # ---- bursts: (many) more complete frames in the reader's buffer at a single poll than any per-poll budget a reader could have;
     # tiny frames keep this cheap.  The segmentation/timing dimension here is "how many frames had accumulated when the reader looked":
     # everything in one segment, many segments back to back with no poll in between, a burst in front of / behind a paced part,
@@ -919,6 +1012,56 @@ def gen_cases(ctx, side, quick):
 
 
 BURST_SIZES = [66, 70, 100, 129, 130, 200, 260, 300, 520]
+# payload sizes around the sign bit of the 2-byte length prefix (length field = payload + 1) and at its maximum
+BIG_PAYLOADS = [32765, 32766, 32767, 32768, 40000, 65533, 65534]
+
+
+def gen_big_cases(ctx, side, quick):
+    """well-formed streams with maximum-size frames (soup: length field 0x7FFE..0xFFFF; FIX: BodyLength beyond 64 KiB) between small
+    ones, and heartbeat-only bursts of more than 64 KiB followed by data; cut inside / right after the length field, in the middle,
+    before the last byte, at random; delivered to a bare reader and through a session with a flow-controlled transport"""
+    rng = ctx.rng
+    sizes = rng.sample(BIG_PAYLOADS, 3) + [rng.choice([32767, 32768, 65534])] if quick else BIG_PAYLOADS * 3
+    for n in sizes:
+        pre = side.gen_msgs(rng, rng.randint(0, 2), True)
+        post = side.gen_msgs(rng, rng.randint(1, 3), True, force_logout=(0 if rng.random() < 0.2 else None))
+        if side.name == 'soup':
+            k = rng.choice(['seqData', 'seqData', 'unseqData', 'debug'])
+            if k == 'debug':
+                big = [k, [rng.choice([65, 97, 48])] * n]
+            else:
+                big = [k, rng.randbytes(16) + bytes([rng.choice([0, 32, 65, 255])]) * (n - 32) + rng.randbytes(16)]
+        else:
+            big = {'ver': 'FIX.4.4', 'type': rng.choice(['D', '8']), 'hdr': [[34, '7']], 'body': [[58, rng.choice('zQ7') * (n + rng.choice([0, 4000]))]]}
+        msgs = pre + [big] + post
+        descs = [side.desc(m) for m in msgs]
+        frames = [side.frame(m) for m in msgs]
+        ends = list(itertools.accumulate(len(f) for f in frames))
+        L, b0, b1 = ends[-1], ends[len(pre)] - len(frames[len(pre)]), ends[len(pre)]
+        hdr = 2 if side.name == 'soup' else frames[len(pre)].index(SOHB, frames[len(pre)].index(b'9=')) + 1
+        styles = ['whole', 'before-last-byte', 'after-length', 'inside-length', 'middle', 'at-65536', 'random', 'frame-alone']
+        for style in (rng.sample(styles, 3) if quick else styles):
+            cuts = {'whole': [], 'before-last-byte': [b1 - 1], 'after-length': [b0 + hdr], 'inside-length': [b0 + hdr - 1, b1 - 1],
+                    'middle': [b0 + (b1 - b0) // 2], 'at-65536': [min(L - 1, b0 + 65536), min(L - 1, b0 + 65535)],
+                    'random': sorted(rng.sample(range(1, L), 3)), 'frame-alone': [b0, b1]}[style]
+            cuts = sorted({c for c in cuts if 0 < c < L})
+            polls = [rng.choice([0, 1, 1, 2]) for _ in range(len(cuts))] + [1]
+            for via in ((None, 'session') if rng.random() < 0.7 else ('session',)):
+                hl = {'proto': side.name, 'msgs': descs, 'cuts': cuts, 'polls': polls}
+                if via:
+                    hl['via'] = via
+                yield 'big:' + style + (':via-session' if via else ''), hl
+    # heartbeat-only bursts beyond 64 KiB, then data (one poll per heartbeat: a couple per run)
+    for _ in range(1 if quick else 6):
+        total = rng.choice([65536 + 30, 70000, 131072 + 30])
+        hb = 'serverHb' if side.name == 'soup' else {'ver': 'FIX.4.4', 'type': '0', 'hdr': [], 'body': []}
+        nhb = -(-total // len(side.frame(hb)))
+        post = side.gen_msgs(rng, rng.randint(1, 3), True)
+        msgs = [hb] * nhb + post
+        descs = [side.desc(m) for m in msgs]
+        L0 = nhb * len(side.frame(hb))
+        cuts, polls = rng.choice([([L0], [0, 1]), ([L0], [3, 1]), ([], [1]), ([L0 // 2, L0], [0, 2, 1])])
+        yield 'hb-burst-64k:via-session', {'proto': side.name, 'msgs': descs, 'cuts': cuts, 'polls': polls, 'via': 'session'}
 
 
 def jitter(case, rng):
@@ -1009,6 +1152,8 @@ def corpus_cases():
             if f.endswith('.json'):
                 c = json.load(open(os.path.join(cdir, f)))
                 c = c.get('replay', c)
+                if c.get('kind') == 'stream-hl':            # compact form: messages + cuts + polls, the script is rebuilt
+                    c = hl_to_case(c['hl'])
                 out.append((f, c))
     return out
 
@@ -1078,7 +1223,7 @@ def run(ctx):
             case = hl_to_case(hl)
             if rng.random() < 0.25:
                 case = jitter(case, rng)
-        key = json.dumps([case['proto'], case['msgs'], case['script'], case.get('stubs', {})], default=repr)
+        key = json.dumps([case['proto'], case['msgs'], case['script'], case.get('stubs', {}), case.get('via')], default=repr)
         ctx.case(key, nontrivial=len(case['msgs']) > 0, sample_every=997)
         ctx.count(f'{side.name}:{label}')
         try:
@@ -1096,7 +1241,7 @@ def run(ctx):
             if hl is None and 'cuts' in case and runner.hangs == 0:
                 # a corpus case: rebuild the high-level form so that it can be shrunk like a generated one
                 cand = {'proto': case['proto'], 'msgs': case['msgs'], 'cuts': case['cuts'], 'polls': [1] * (len(case['cuts']) + 1),
-                        'stubs': case.get('stubs', {})}
+                        'stubs': case.get('stubs', {}), 'via': case.get('via')}
                 try:
                     if evaluate(ctx, runner, hl_to_case(cand))['fail']:
                         hl = cand
@@ -1130,6 +1275,10 @@ def run(ctx):
         for label, hl in gen_cases(ctx, side, quick):
             if runner.hangs >= 2:          # every further case would cost CASE_TIMEOUT: the failing inputs are recorded, stop here
                 ctx.notes.append('generation cut short: the reader hung (busy loop) on two cases')
+                break
+            do_case(label, hl)
+        for label, hl in gen_big_cases(ctx, side, quick):
+            if runner.hangs >= 2:
                 break
             do_case(label, hl)
     # ---- malformed streams
